@@ -109,6 +109,7 @@ def decorate(draw, p):
                  [["I", "pushint", ["1"]], ["I", "gtxns", ["Sender"]], ["I", "pop", []]]]
     # an address field compared with a value only known at run time (the tool's placeholder heuristic);
     # assembler-valid, consumed by assert so that the analyses look at the comparison
+    cmps = []
     srcs = [["I", "load", ["3"]], ["I", "txna", ["Accounts", "1"]], ["I", "gtxn", ["1", "Sender"]]]
     if p["version"] >= 3:
         srcs.append(["I", "global", ["CreatorAddress"]])
@@ -116,12 +117,20 @@ def decorate(draw, p):
         srcs += [["I", "frame_dig", ["-1"]]] * 2
     for src in srcs:
         for fld in ("Sender", "RekeyTo", "CloseRemainderTo"):
-            pads.append([src, ["I", "txn", [fld]], ["I", "==", []], ["I", "assert", []]])
+            cmps.append([src, ["I", "txn", [fld]], ["I", "==", []], ["I", "assert", []]])
+    # one theme per program: the same listed pair in several blocks (so that one detector has several
+    # findings whose order is observable), or run-time-value comparisons
+    listing = draw(st.integers(0, 4)) < 3
+    primary = draw(st.sampled_from(pads))
     items = []
     n = 0
     for it in p["items"]:
-        if it[0] == "I" and len(it) > 3 and it[3].get("s") and n < 6 and draw(st.integers(0, 2)) == 0:
-            items += [list(x) for x in draw(st.sampled_from(pads))]
+        if it[0] == "I" and len(it) > 3 and it[3].get("s") and n < 8 and draw(st.integers(0, 1)) == 0:
+            if listing:
+                pad = primary if draw(st.integers(0, 2)) else draw(st.sampled_from(pads))
+            else:
+                pad = draw(st.sampled_from(cmps))
+            items += [list(x) for x in pad]
             n += 1
         items.append(it)
     p["items"] = items
